@@ -46,6 +46,7 @@ package qbft
 
 //@ func verifyMsg
 //@ props C05 C02 C03 C01
+//@ assigns nothing
 //@ nopanic
 //@ safe nil
 //@ pure
@@ -138,6 +139,7 @@ package qbft
 // attaches the protobuf form of every justification in order.
 //@ func createMsg
 //@ props C05 C02 C03
+//@ assigns nothing
 //@ callreq signMsg: a1.Type == int64(typ) && a1.Duty == core.DutyToProto(duty) && a1.PeerIdx == peerIdx && a1.Round == round && a1.PreparedRound == pr && a2 == privkey
 //@ callreq signMsg: a1.ValueHash == vHash[:] && a1.PreparedValueHash == pvHash[:]
 //@ callreq newMsg: a3 == values && len(a2) == len(justification) && forall(k, 0, len(justification), a2[k] == justification[k].(Msg).Msg())
@@ -198,6 +200,7 @@ package qbft
 // exempt duties never start a run.
 //@ func (c *Consensus) runInstance
 //@ props C02 C03 C04
+//@ assigns c.mutable
 // The instance of a live duty is never removed here (only the expiry loop in Start deletes instances).
 //@ ensures ncalls(c.deleteInstanceIO) == 0
 //@ requires len(c.peers) <= 4096
@@ -250,6 +253,7 @@ package qbft
 //@ pure anypb.New
 //@ func (t *transport) getValue
 //@ props C03 C05
+//@ assigns t.values
 //@ callreq anypb.New: a1 == pair.Value
 //@ ensures r1 == nil ==> has(t.values, hash) && r0 == t.values[hash]
 //@ ensures ncalls(anypb.New) <= 1
@@ -261,6 +265,7 @@ package qbft
 // existing instance, only the expiry loop deletes, and it deletes exactly the expired duty's entry.
 //@ func (c *Consensus) getInstanceIO
 //@ props C02 C03
+//@ assigns c.mutable
 //@ atomic
 //@ ensures has(old(c.mutable.instances), duty) ==> result == old(c.mutable.instances)[duty]
 //@ ensures has(c.mutable.instances, duty) && c.mutable.instances[duty] == result
@@ -268,6 +273,7 @@ package qbft
 
 //@ func (c *Consensus) getRecvBuffer
 //@ props C02 C03
+//@ assigns c.mutable
 //@ atomic
 //@ ensures has(old(c.mutable.instances), duty) ==> c.mutable.instances[duty] == old(c.mutable.instances)[duty]
 //@ ensures has(c.mutable.instances, duty) && result == c.mutable.instances[duty].RecvBuffer
@@ -275,6 +281,7 @@ package qbft
 
 //@ func (c *Consensus) deleteInstanceIO
 //@ props C02 C03
+//@ assigns c.mutable
 //@ atomic
 //@ ensures !has(c.mutable.instances, duty)
 //@ ensures all(d2, core.Duty, d2 != duty ==> has(c.mutable.instances, d2) == has(old(c.mutable.instances), d2) && c.mutable.instances[d2] == old(c.mutable.instances)[d2])
